@@ -19,7 +19,7 @@ SOURCES = ['src/dtaidistance/dtw.py', 'src/dtaidistance/ed.py', 'src/dtaidistanc
 FUNCTIONS = ['dtw.distance (max_dist, use_pruning)', 'dtw.warping_paths (max_dist, use_pruning: returned distance)', 'dd_dtw.c dtw_warping_paths(_ndim)(_euclidean) with use_pruning (returned distance)',
              'DTWSettings.set_max_dist', 'ed.distance', 'dd_dtw.c dtw_distance, dtw_distance_euclidean (max_dist, use_pruning)',
              'dd_dtw.c ub_euclidean*', 'dd_ed.c euclidean_distance*']
-BOUNDS = {'quick': {'r,c': '1..3 (3x4 / 4x3 for distance in cost mode)', 'window': 'None,1,2,3', 'psi': 'None, 1, (1,0,0,1), (0,1,0,1)',
+BOUNDS = {'quick': {'r,c': '1..3 (3x4 / 4x3 for distance in cost mode; 3x4, 4x3, 4x4 with window 1 for use_pruning in the C matrix kernel)', 'window': 'None,1,2,3', 'psi': 'None, 1, (1,0,0,1), (0,1,0,1)',
                     'penalty': 'None | symbolic', 'threshold': 'symbolic M > 0'},
           'thorough': {'r,c': '1..4', 'window': 'all', 'psi': 'None, 1, (1,0,0,1), (0,1,0,1), (0,1,1,0)', 'penalty': 'None | symbolic',
                        'threshold': 'symbolic M > 0'}}
@@ -70,6 +70,10 @@ def tasks(tier, seed):
                             # the accumulated-cost matrix routines with use_pruning (returned distance)
                             ts.append({'harness': '%s/wps-prune/%s' % (eng, inner), 'r': r, 'c': c, 'window': w, 'tier': tier,
                                        'est': 4 * 3 ** min(r, c) * r * c})
+    # narrow band on longer series: the shifted row regions of the compact C matrix kernel exist only here
+    for r, c in ((3, 4), (4, 3), (4, 4)) + (((5, 4), (4, 5)) if tier == 'thorough' else ()):
+        for inner in ('sq', 'abs'):
+            ts.append({'harness': 'c/wps-prune/%s' % inner, 'r': r, 'c': c, 'window': 1, 'tier': tier, 'est': 4 * 3 ** min(r, c) * r * c})
     for eng in ('py', 'c'):
         for r in (2, 3):
             ts.append({'harness': eng + '/prune-rounding', 'r': r, 'c': r, 'window': None, 'tier': tier, 'est': 500})
